@@ -226,6 +226,14 @@ def order(rc):
     overlap = any(any(_ov(t) and pol for t, pol in s.conds) for s in rs)
     complete = any(any(norm(t) == f"{TE} != set(elimination_order)" and pol for t, pol in s.conds) for s in rs)
     rc.ob(f"explicit order: overlap rejected {overlap}, incompleteness rejected {complete}")
+    # the completeness test must be reached on every path that keeps an explicit order (it must not be an `elif` behind the branch that filters unknown names)
+    for s_ in rs:
+        if any(norm(t) == f"{TE} != set(elimination_order)" and pol for t, pol in s_.conds):
+            skipped_by = [t for t, pol in s_.conds if not pol and not _ov(t) and not (isinstance(t, ast.Call) and call_name(t) == "isinstance")
+                          and any(isinstance(x, ast.Name) and x.id == "elimination_order" for x in ast.walk(t)) and norm(t) != f"{TE} != set(elimination_order)"]
+            for t in skipped_by:
+                rc.fail(f, s_.node, f"the completeness check of an explicit elimination order is skipped whenever `{norm(t, 70)}` holds (it sits in an elif behind that branch): an order that "
+                        "contains an unknown name and misses a variable is accepted, and the query returns a table over extra variables", construct="explicit order completeness skipped")
     if not overlap:
         rc.fail(f, f.node, "an explicit order containing query or evidence variables must be rejected", construct="explicit overlap")
     if not complete:
@@ -342,6 +350,9 @@ def defuse(rc):
     _sh.defuse_rule(rc, _sh.anchor_files("C01"))
 
 MUTANTS = [
+    dict(kind="break", name="completeness-check-behind-elif", file=EI, expect="C01.order",
+         old="            # Step 1.3: Check if the elimination_order has all the variables that need to be eliminated.\n            if to_eliminate != set(elimination_order):",
+         new="            # Step 1.3: Check if the elimination_order has all the variables that need to be eliminated.\n            elif to_eliminate != set(elimination_order):"),
     dict(kind="break", name="evidence-translated-twice", file=EI, expect="C01.states",
          old="        if evidence:\n            for evidence_var in evidence:\n                for factor, origin in working_factors[evidence_var]:",
          new="        if evidence:\n            evidence = {var: self.factors[var][0].name_to_no[var].get(state, state) for var, state in evidence.items()}\n            for evidence_var in evidence:\n                for factor, origin in working_factors[evidence_var]:"),
@@ -363,7 +374,7 @@ MUTANTS = [
     dict(kind="break", name="worklist-forgets-moral-graph", file=EO, expect="C01.order",
          old="            self.moralized_model.remove_node(min_score_node)\n", new=""),
     dict(kind="break", name="explicit-order-completeness-unchecked", file=EI, expect="C01.order",
-         old="            elif to_eliminate != set(elimination_order):\n                raise ValueError(\n                    f\"Elimination order doesn't contain all the variables\"\n                    f\"which need to be eliminated. The variables which need to\"\n                    f\"be eliminated are {to_eliminate}\"\n                )\n", new=""),
+         old="            if to_eliminate != set(elimination_order):\n                raise ValueError(\n                    f\"Elimination order doesn't contain all the variables\"\n                    f\"which need to be eliminated. The variables which need to\"\n                    f\"be eliminated are {to_eliminate}\"\n                )\n", new=""),
     dict(kind="break", name="working-set-untagged", file=EI, expect="C01.once",
          old="node: {(factor, id(factor)) for factor in self.factors[node]}", new="node: {(factor, None) for factor in self.factors[node]}"),
     dict(kind="break", name="final-set-of-bare-factors", file=EI, expect="C01.once",
